@@ -281,7 +281,7 @@ theorem acquireLoop_path {c : Cfg} (hd : Dom c) (tgt : Bytes) :
         simp only [acquireLoop, getPrompt, dev_bare c s.dev haw]
         rw [ha] at hm ⊢
         rw [processAcquire_same hd (hd.ord _) hm]
-        simp [expectedLog, ha, haw]
+        simp [expectedLog, haw]
       | cons x rest =>
         have hp' : SimplePath (par c.L) a tgt (a :: x :: rest) := ha ▸ hp
         have hstep := processAcquire_step hd (hd.ord s.tick) hp' hV s.cache
@@ -334,5 +334,163 @@ theorem sendLines_payload (c : Cfg) : ∀ (ls : List Bytes) (s : Sess), s.dev.aw
     simp only [Option.isSome_none, Bool.false_eq_true, if_false]
     rw [ih _ rfl (fun l' hl' => hpl l' (List.mem_cons_of_mem _ hl'))]
     simp
+
+end Scrapli.Priv
+
+/-! ## whole operations -/
+namespace Scrapli.Priv
+open Scrapli Scrapli.Forest
+
+theorem acquirePriv_ok {c : Cfg} (hd : Dom c) (s : Sess) {tgt : Bytes} (haw : s.dev.awaiting = none)
+    (ht : tgt ∈ names c.L) {p : List Bytes} (hp : SimplePath (par c.L) s.dev.mode tgt p)
+    (hV : ∀ v ∈ p, v ∈ names c.L) :
+    acquirePriv c tgt s =
+      (none, { dev := { mode := tgt, awaiting := none, log := s.dev.log ++ expectedLog c p },
+               cache := tgt, tick := s.tick + p.length }) := by
+  obtain ⟨l, hl⟩ := find?_isSome_of_mem ht
+  have hlen := path_length_le hp hV
+  unfold acquirePriv
+  rw [hl]
+  exact acquireLoop_path hd tgt p s _ 0 hp hV haw (by omega) (by omega)
+
+theorem acquirePriv_unknown (c : Cfg) (s : Sess) {tgt : Bytes} (ht : tgt ∉ names c.L) :
+    acquirePriv c tgt s = (some .privilege, s) := by
+  unfold acquirePriv
+  rw [find?_none_iff.2 ht]
+
+/-- the invariant: the device sits at a prompt in some level, and a cache that names a level
+names the device's level -/
+structure Inv (c : Cfg) (s : Sess) : Prop where
+  atPrompt : s.dev.awaiting = none
+  inLevel : s.dev.mode ∈ names c.L
+  coherent : s.cache ∈ names c.L → s.dev.mode = s.cache
+
+/-- level an operation must run at -/
+def opLevel (c : Cfg) : Op → Bytes
+  | .sendCommand _ => c.default
+  | .sendCommands _ => c.default
+  | .sendConfigs _ priv => if priv = [] then Gen.Network.defaultConfigurationPrivLevel else priv
+  | .sendConfig _ priv => if priv = [] then Gen.Network.defaultConfigurationPrivLevel else priv
+  | .acquirePriv t => t
+  | .sendInteractive _ priv => if priv = [] then c.default else priv
+
+/-- payload lines of an operation -/
+def opLines : Op → List Bytes
+  | .sendCommand cmd => [cmd]
+  | .sendCommands cmds => cmds
+  | .sendConfigs lines _ => lines
+  | .sendConfig cfg _ => splitLF cfg
+  | .acquirePriv _ => []
+  | .sendInteractive inputs _ => inputs
+
+/-- `SendCommand(s)` skip the acquisition when the cache already names the default level -/
+def opSkips (c : Cfg) (s : Sess) : Op → Bool
+  | .sendCommand _ => s.cache == c.default
+  | .sendCommands _ => s.cache == c.default
+  | _ => false
+
+/-- an empty command list is refused by `generic.SendCommands` (after the acquisition) -/
+def opErr : Op → Option Err
+  | .sendCommands cmds => if cmds = [] then some .noop else none
+  | .sendConfigs lines _ => if lines = [] then some .noop else none
+  | .sendConfig cfg _ => if splitLF cfg = [] then some .noop else none
+  | _ => none
+
+theorem genericSendCommands_payload (c : Cfg) (ls : List Bytes) (s : Sess)
+    (haw : s.dev.awaiting = none) (hpl : ∀ l ∈ ls, l = [] ∨ isPayload c.L l = true) :
+    genericSendCommands c ls s = (if ls = [] then some .noop else none, { s with dev :=
+      { s.dev with log := s.dev.log ++ ls.map fun l => (s.dev.mode, l) } }) := by
+  unfold genericSendCommands
+  split
+  · rename_i h; subst h; simp
+  · rw [sendLines_payload c ls s haw hpl]
+
+theorem sendInput_payload (c : Cfg) (s : Sess) (haw : s.dev.awaiting = none) {line : Bytes}
+    (hl : line = [] ∨ isPayload c.L line = true) :
+    sendInput c s line = (none, { s with dev :=
+      { s.dev with log := s.dev.log ++ [(s.dev.mode, line)] } }) := by
+  simp [sendInput, dev_payload c s.dev haw hl, haw]
+
+/-- one operation, from any coherent state: the acquisition (unless skipped) walks the simple path
+to the operation's level, then every payload line arrives in that level -/
+theorem runOp_spec {c : Cfg} (hd : Dom c) {s : Sess} (hi : Inv c s) (op : Op)
+    (hpl : ∀ l ∈ opLines op, l = [] ∨ isPayload c.L l = true) (hlv : opLevel c op ∈ names c.L) :
+    ∃ p, SimplePath (par c.L) s.dev.mode (opLevel c op) p ∧ (∀ v ∈ p, v ∈ names c.L) ∧
+      runOp c s op = (opErr op,
+        { dev := { mode := opLevel c op, awaiting := none,
+                   log := s.dev.log ++ (if opSkips c s op then [] else expectedLog c p) ++
+                     (opLines op).map fun l => (opLevel c op, l) },
+          cache := opLevel c op,
+          tick := s.tick + (if opSkips c s op then 0 else p.length) }) := by
+  obtain ⟨p, hp, hV⟩ := path_exists hd.tree hi.inLevel hlv
+  refine ⟨p, hp, hV, ?_⟩
+  have hacq := acquirePriv_ok hd s hi.atPrompt hlv hp hV
+  have haw := hi.atPrompt
+  cases op with
+  | sendCommand cmd =>
+    simp only [opLevel, opLines, opSkips, opErr] at *
+    simp only [runOp, withDefault]
+    by_cases hc : s.cache = c.default
+    · have hmode : s.dev.mode = c.default := by rw [← hc]; exact hi.coherent (hc ▸ hlv)
+      simp only [hc, ne_eq, not_true_eq_false, if_false, beq_self_eq_true, if_true]
+      rw [sendInput_payload c s haw (hpl cmd (by simp))]
+      cases s; simp_all
+    · simp only [ne_eq, hc, not_false_eq_true, if_true, hacq]
+      rw [sendInput_payload c _ rfl (hpl cmd (by simp))]
+      simp [hc]
+  | sendCommands cmds =>
+    simp only [opLevel, opLines, opSkips, opErr] at *
+    simp only [runOp, withDefault]
+    by_cases hc : s.cache = c.default
+    · have hmode : s.dev.mode = c.default := by rw [← hc]; exact hi.coherent (hc ▸ hlv)
+      simp only [hc, ne_eq, not_true_eq_false, if_false, beq_self_eq_true, if_true]
+      rw [genericSendCommands_payload c cmds s haw hpl]
+      cases s; simp_all
+    · simp only [ne_eq, hc, not_false_eq_true, if_true, hacq]
+      rw [genericSendCommands_payload c cmds _ rfl hpl]
+      simp [hc]
+  | sendConfigs lines priv =>
+    simp only [opLevel, opLines, opSkips, opErr] at *
+    simp only [runOp, withTarget, hacq]
+    rw [genericSendCommands_payload c lines _ rfl hpl]
+    simp
+  | sendConfig cfg priv =>
+    simp only [opLevel, opLines, opSkips, opErr] at *
+    simp only [runOp, withTarget, hacq]
+    rw [genericSendCommands_payload c (splitLF cfg) _ rfl hpl]
+    simp
+  | acquirePriv t =>
+    simp only [opLevel, opLines, opSkips, opErr] at *
+    simp only [runOp, hacq]
+    simp
+  | sendInteractive inputs priv =>
+    simp only [opLevel, opLines, opSkips, opErr] at *
+    simp only [runOp, withTarget, hacq]
+    rw [sendLines_payload c inputs _ rfl hpl]
+    simp
+
+/-- an operation whose level is not in the map is refused with a privilege error before anything
+is sent -/
+theorem runOp_unknown (c : Cfg) (s : Sess) (op : Op) (hsk : opSkips c s op = false)
+    (hlv : opLevel c op ∉ names c.L) : runOp c s op = (some .privilege, s) := by
+  cases op with
+  | sendCommand cmd =>
+    simp only [opLevel, opSkips, beq_eq_false_iff_ne] at *
+    simp [runOp, withDefault, hsk, acquirePriv_unknown c s hlv]
+  | sendCommands cmds =>
+    simp only [opLevel, opSkips, beq_eq_false_iff_ne] at *
+    simp [runOp, withDefault, hsk, acquirePriv_unknown c s hlv]
+  | sendConfigs lines priv =>
+    simp only [opLevel] at hlv
+    simp [runOp, withTarget, acquirePriv_unknown c s hlv]
+  | sendConfig cfg priv =>
+    simp only [opLevel] at hlv
+    simp [runOp, withTarget, acquirePriv_unknown c s hlv]
+  | acquirePriv t =>
+    simp only [opLevel] at hlv
+    simp [runOp, acquirePriv_unknown c s hlv]
+  | sendInteractive inputs priv =>
+    simp only [opLevel] at hlv
+    simp [runOp, withTarget, acquirePriv_unknown c s hlv]
 
 end Scrapli.Priv
